@@ -59,11 +59,10 @@ macro_rules! const_dispatch {
             })*
             None
         }
-        fn const_read<E: Endianness>(p: &str, i: usize, stat: bool, r: &mut RB<E>) -> Option<Result<u64, std::convert::Infallible>>
-        where RB<E>: CodesRead<E, Error = std::convert::Infallible> {
+        fn const_read<E: Endianness, R: CodesRead<E>>(p: &str, i: usize, stat: bool, r: &mut R) -> Option<Result<u64, R::Error>> {
             $(if p == $p && i == $i {
                 let c = ConstCode::<{ code_consts::$c }>;
-                return Some(if stat { StaticCodeRead::<E, RB<E>>::read(&c, r) } else { c.read(r) });
+                return Some(if stat { StaticCodeRead::<E, R>::read(&c, r) } else { c.read(r) });
             })*
             None
         }
@@ -322,8 +321,8 @@ macro_rules! run_e {
                 };
                 for _ in 0..written.len() {
                     let rr: Option<Result<u64, Panicked>> = guard_opt(|| match (id, *via) {
-                        (Ident::Const(p, i), "const") => const_read::<$E>(p, *i, false, &mut r),
-                        (Ident::Const(p, i), "const-static") => const_read::<$E>(p, *i, true, &mut r),
+                        (Ident::Const(p, i), "const") => const_read::<$E, _>(p, *i, false, &mut r),
+                        (Ident::Const(p, i), "const-static") => const_read::<$E, _>(p, *i, true, &mut r),
                         (Ident::Enum(c), "enum") => Some(c.read(&mut r)),
                         (Ident::Enum(c), "enum-static") => Some(StaticCodeRead::<$E, RB<$E>>::read(c, &mut r)),
                         (Ident::Enum(_), "func") => func.as_ref().map(|f| f.read(&mut r)),
@@ -340,6 +339,21 @@ macro_rules! run_e {
                     $tests += 1;
                 }
                 $tr.emit(Ev::new("drop_reader").i("o", rid));
+            }
+            // ---------------- the same stream through readers of other kinds (8-, 16-, 64-bit words, unbuffered):
+            // a dispatcher must not depend on the reader it is used with
+            {
+                let w8: Vec<u8> = image.clone();
+                let mut r8: BufBitReader<$E, MemWordReader<u8, Vec<u8>>> = BufBitReader::new(MemWordReader::new(w8));
+                extra_reads::<$E, _>($tr, $ename, id, &image, &mut r8, 8, "buf", written.len(), &mut $tests);
+                let w16: Vec<u16> = crate::dynio::bytes_to_words(&image);
+                let mut r16: BufBitReader<$E, MemWordReader<u16, Vec<u16>>> = BufBitReader::new(MemWordReader::new(w16));
+                extra_reads::<$E, _>($tr, $ename, id, &image, &mut r16, 16, "buf", written.len(), &mut $tests);
+                let w64: Vec<u64> = crate::dynio::bytes_to_words(&image);
+                let mut r64: BufBitReader<$E, MemWordReader<u64, Vec<u64>>> = BufBitReader::new(MemWordReader::new(w64.clone()));
+                extra_reads::<$E, _>($tr, $ename, id, &image, &mut r64, 64, "buf", written.len(), &mut $tests);
+                let mut ru: BitReader<$E, MemWordReader<u64, Vec<u64>>> = BitReader::new(MemWordReader::new(w64));
+                extra_reads::<$E, _>($tr, $ename, id, &image, &mut ru, 64, "unbuf", written.len(), &mut $tests);
             }
             // ---------------- lengths
             for &v in &vals {
@@ -364,6 +378,48 @@ macro_rules! run_e {
             }
         }
     }};
+}
+
+/// reads of `n' values from `image' through const / enum / func dispatchers on an arbitrary reader type
+fn extra_reads<E: Endianness, R: CodesRead<E> + BitSeek>(tr: &mut Tr, ename: &str, id: &Ident, image: &[u8], r: &mut R, wbits: usize, kind: &str, n: usize, tests: &mut u64) {
+    let vias: &[&str] = match id {
+        Ident::Const(..) => &["const", "const-static"],
+        Ident::Enum(_) => &["enum", "func"],
+    };
+    for via in vias {
+        tr.reset();
+        let rid = tr.new_id();
+        tr.emit(Ev::new("new_reader").i("o", rid).s("e", ename).i("w", wbits as i64).s("kind", kind).s("backend", "inf").s("wrap", "none").b("strict", false).i("peek", if kind == "unbuf" { 32 } else { wbits as i64 }).b("has_counter", false).bytes("bytes", image));
+        if r.set_bit_pos(0).is_err() {
+            return;
+        }
+        let func = match id {
+            Ident::Enum(c) => FuncCodeReader::<E, R>::new(*c).ok(),
+            _ => None,
+        };
+        for _ in 0..n {
+            let rr = std::panic::catch_unwind(std::panic::AssertUnwindSafe(|| match (id, *via) {
+                (Ident::Const(p, i), "const") => const_read::<E, R>(p, *i, false, r),
+                (Ident::Const(p, i), "const-static") => const_read::<E, R>(p, *i, true, r),
+                (Ident::Enum(c), "enum") => Some(c.read(r)),
+                (Ident::Enum(_), "func") => func.as_ref().map(|f| f.read(r)),
+                _ => None,
+            }));
+            let (res, v) = match rr {
+                Ok(None) => break,
+                Ok(Some(Ok(v))) => ("ok", v),
+                Ok(Some(Err(_))) => ("err", 0),
+                Err(_) => ("panic", 0),
+            };
+            let pos = r.bit_pos().map(|p| p as i64).unwrap_or(-1);
+            tr.emit(ident_fields(Ev::new("dread").i("o", rid).s("via", via), id).s("res", res).i("pos", pos).u64("v", v));
+            *tests += 1;
+            if res != "ok" {
+                break;
+            }
+        }
+        tr.emit(Ev::new("drop_reader").i("o", rid));
+    }
 }
 
 /// a reader factory over a byte image
